@@ -322,10 +322,10 @@ impl MultiState {
             None => return Ok(()),
         };
 
-        // If this draw is due to a `println`, then we need to erase all the zombie lines that are
-        // still on the screen. This is because `println` is supposed to appear above all other
-        // elements in the `MultiProgress`.
-        let prints_lines = extra_lines.is_some();
+        // If this draw prints lines (`MultiProgress::println` or `ProgressBar::println`), then we
+        // need to erase all the zombie lines that are still on the screen. This is because
+        // `println` is supposed to appear above all other elements in the `MultiProgress`.
+        let prints_lines = extra_lines.is_some() || !self.orphan_lines.is_empty();
         if prints_lines {
             drawable.adjust_last_line_count(LineAdjust::Clear(self.zombie_lines_count));
             self.zombie_lines_count = VisualLines::default();
